@@ -29,7 +29,17 @@ func (w *World) StreamSession(name string, maxMsgs int64, ackFrac, nackFrac floa
 	s, live := w.Subs[name]
 	fs := rig.NewFakeStream(w.Ctx)
 	done := make(chan error, 1)
-	go func() { done <- w.E.Sub.StreamingPull(fs) }()
+	// when the handler returns on its own the fake stream is cancelled, so a later
+	// Push does not wait for a reader that is gone
+	selfExit := false
+	go func() {
+		err := w.E.Sub.StreamingPull(fs)
+		if fs.Context().Err() == nil {
+			selfExit = true
+		}
+		fs.Cancel()
+		done <- err
+	}()
 	lo := w.now()
 	fs.Push(&pubsubpb.StreamingPullRequest{Subscription: name, StreamAckDeadlineSeconds: 10, MaxOutstandingMessages: maxMsgs})
 	rig.Quiesce()
@@ -178,7 +188,10 @@ func (w *World) StreamSession(name string, maxMsgs int64, ackFrac, nackFrac floa
 	fs.Cancel()
 	err := <-done
 	rig.Quiesce()
-	w.rec("stream", fmt.Sprintf("%s max=%d acks=%d nacks=%d", name, maxMsgs, len(acks), len(nacks)), fmt.Sprintf("%s sent=%d", code(err), total))
+	w.rec("stream", fmt.Sprintf("%s max=%d acks=%d nacks=%d", name, maxMsgs, len(acks), len(nacks)), fmt.Sprintf("%s sent=%d selfExit=%v err=%v", code(err), total, selfExit, err))
+	if selfExit && !s.Wild {
+		w.violate("C01", "stream-ended-by-server", "stream on live subscription %s#%d was ended by the server: %v", name, s.Gen, err)
+	}
 	w.stat("stream_sessions", 1)
 	w.stat("stream_messages", int64(total))
 }
